@@ -174,7 +174,7 @@ def c05_8(ctx, r):
     for s in ts:
         for n in ctx.nodes_of(cli, s.node):
             forms = {(f, p) for f, p in guard_forms(ctx, cli, n)}
-            extra = sorted(("" if p else "not ") + f for f, p in forms if f != "distributed_submitter" and not f.endswith("== Status.GOOD"))
+            extra = sorted(("" if p else "not ") + f for f, p in forms if f != "distributed_submitter" and "Status.GOOD" not in f)
             r.check(not extra and ("distributed_submitter", True) in forms, "a finishing node runs try-submit-jobs whenever the distributed submitter is on and its jobs ran", key_of(cli, "node round trigger"), s.loc,
                     f"the node's try-submit-jobs is additionally guarded by {extra}: the last node may not trigger completion", "whenever all running batches have ended ... one try-submit-jobs ...")
     h = ctx.fn("run_jobs._try_submit_jobs", "C05.8")
